@@ -176,5 +176,54 @@ def _pair(spec, model):
 
 @replayer('c04.static')
 def _static(spec, model):
-    return {'confirmed': False, 'note': 'static modifies-clause obligation: the write site is named in the obligation detail',
-            'observed': spec.get('writes')}
+    """best effort: call the function on real sample isotherms and compare their observable state before / after"""
+    import importlib
+    import inspect
+    import pygaps
+    pygaps.logger.disabled = True
+    qual = spec['function']
+    parts = qual.split('.')
+    obj = None
+    for k in range(len(parts) - 1, 0, -1):
+        try:
+            obj = importlib.import_module('.'.join(parts[:k]))
+            for name in parts[k:]:
+                obj = getattr(obj, name)
+            break
+        except Exception:
+            obj = None
+    if obj is None or not callable(obj):
+        return {'confirmed': False, 'error': f'cannot resolve {qual}', 'observed': spec.get('writes')}
+    base = _load()
+    ref = _load('SiO2 N2 77.355.json')
+    changed = []
+    sig = inspect.signature(obj)
+    for attempt in range(3):
+        iso, r = _twin(base), _twin(ref)
+        kwargs = {}
+        for pname in sig.parameters:
+            if pname in ('isotherm', 'iso', 'self'):
+                kwargs[pname] = iso
+            elif pname == 'reference_isotherm':
+                kwargs[pname] = r
+            elif pname == 'isotherms':
+                kwargs[pname] = [iso, r]
+        if attempt == 1:
+            iso.convert_pressure(mode_to='absolute', unit_to='bar')
+        if attempt == 2:
+            iso.convert_loading(basis_to='mass', unit_to='mg')
+        s0 = [_state(x) for x in (iso, r)]
+        try:
+            if 'self' in kwargs:
+                getattr(kwargs.pop('self'), parts[-1])()
+            else:
+                obj(**kwargs)
+        except Exception as exc:
+            pass
+        s1 = [_state(x) for x in (iso, r)]
+        for nm, a, b in zip(('isotherm', 'reference'), s0, s1):
+            if not _same_state(a, b):
+                changed.append({'argument': nm, 'start': ['as stored', 'absolute bar', 'mass mg'][attempt],
+                                'labels_before': {k: a[0].get(k) for k in ('pressure_mode', 'pressure_unit', 'loading_basis', 'loading_unit')},
+                                'labels_after': {k: b[0].get(k) for k in ('pressure_mode', 'pressure_unit', 'loading_basis', 'loading_unit')}})
+    return {'confirmed': bool(changed), 'observed': changed[:3] or spec.get('writes'), 'expected': 'arguments observably unchanged'}
